@@ -9,9 +9,14 @@ import subprocess
 import sys
 
 ROOT = os.path.dirname(os.path.dirname(os.path.abspath(__file__)))
-for pid in sys.argv[1:]:
-    for x in ('a', 'b'):
-        src = f'/tmp/mut/{pid}/_out/{x}'
+args = sys.argv[1:]
+base, letters = '/tmp/mut', ('a', 'b')
+if args and args[0] == '--round2':
+    base, letters = '/tmp/mut2', ('c', 'd')
+    args = args[1:]
+for pid in args:
+    for x in letters:
+        src = f'{base}/{pid}/_out/{x}'
         if not os.path.isfile(os.path.join(src, 'patch.diff')):
             print(pid, x, 'missing')
             continue
